@@ -175,9 +175,13 @@ def run(ctx):
         ctx.ob('R13.4', f'{o.split("::")[-1]}|from_range|start={"const" if start_const else "expr"}', ok,
                'IntArray::from_range(start, count): the count operand must not derive from the start operand (the second argument is a count, not an end)', b.loc(bi))
         if not start_const:
-            srcs = local_field_sources(b, s_l)
             mx = any(callee_of(b.term[d[0]]) == JOB + 'max_id' for x in b.derived_from(s_l) for d in b.defs().get(x, ()) if d[1] == 'call')
-            ctx.ob('R13.4', f'{o.split("::")[-1]}|auto id from max_id', mx, 'auto-assigned ids derive from Job::max_id()', b.loc(bi))
+            if not mx:
+                # the start may come in through a parameter / closure of a helper: then Job::max_id must be called somewhere in
+                # handle_submit (incl. its closures) and no task count (n_tasks / len of the task map) may feed an id
+                hsall = [prog.bodies[p_] for p_ in prog.with_closures(SUBMIT + 'handle_submit')]
+                mx = any(x.call_blocks(JOB + 'max_id') for x in hsall) and not any(x.call_blocks(JOB + 'n_tasks') for x in hsall if x.path != SUBMIT + 'handle_submit' or s_l is not None and any(x.term[c_]['d'][0] in x.derived_from(s_l) for c_ in x.call_blocks(JOB + 'n_tasks')))
+            ctx.ob('R13.4', 'auto id from max_id', mx, 'auto-assigned ids continue after Job::max_id() (a task count is not the largest id once explicit sparse ids were used)', b.loc(bi))
 
     # ---- R13.5
     crl = [prog.bodies[p] for p in prog.with_closures(HQ + 'client::client_rpc_loop') if prog.bodies[p].kind == 'coroutine']
